@@ -7,10 +7,14 @@ import Mps.SrcPins.SrcCmpConfig
 namespace Mps.Src.SrcCmpConfig
 set_option maxRecDepth 65536
 
+theorem gen_f_config : MpsGen.SrcCmpConfig.f_config = Mps.SrcPins.SrcCmpConfig.f_config := by decide
+theorem gen_f_marshal : MpsGen.SrcCmpConfig.f_marshal = Mps.SrcPins.SrcCmpConfig.f_marshal := by decide
+theorem gen_files : MpsGen.SrcCmpConfig.files = Mps.SrcPins.SrcCmpConfig.files := by decide
+
 theorem gen_source :
     MpsGen.SrcCmpConfig.f_config = Mps.SrcPins.SrcCmpConfig.f_config ∧
     MpsGen.SrcCmpConfig.f_marshal = Mps.SrcPins.SrcCmpConfig.f_marshal ∧
-    MpsGen.SrcCmpConfig.files = Mps.SrcPins.SrcCmpConfig.files := by
-  refine ⟨by decide, by decide, by decide⟩
+    MpsGen.SrcCmpConfig.files = Mps.SrcPins.SrcCmpConfig.files :=
+  ⟨gen_f_config, gen_f_marshal, gen_files⟩
 
 end Mps.Src.SrcCmpConfig
